@@ -239,6 +239,16 @@ class CallMixin:
             so = SObj(f"{f.qual}(...)", rk, origin="opaque")
             so.meta["call"] = o.__dict__["call"]
             so.meta["descr"] = descr
+            r2 = ret
+            if isinstance(r2, ast.Constant) and isinstance(r2.value, str):
+                try:
+                    r2 = ast.parse(r2.value, mode="eval").body
+                except SyntaxError:
+                    r2 = None
+            if isinstance(r2, ast.Subscript) and ast.unparse(r2.value).split(".")[-1] in ("list", "List") and not isinstance(r2.slice, ast.Tuple):
+                ek = self.kinds_from_annotation(r2.slice, f.mod)
+                if ek is not None:
+                    so.meta["elem_kinds"] = ek
             if ret is not None and isinstance(ret, ast.Name):
                 tci = self.prog.get_class(ret.id, f.mod)
                 if tci is not None and self.prog.is_subclass(tci, "TypedDict"):
